@@ -88,6 +88,22 @@ def big_case(rng):
     return data, cons, defs, run_
 
 
+def rotation_case(rng):
+    """ hourly dated lines, the file-level boundary in the middle: the
+    cached offset of the first run is far beyond the length of the content
+    rotated in afterwards (the last lines, all inside the window) """
+    t0 = G.datetime(2022, 1, 10, 0, 0, 0)
+    lines = [(t0 + G.timedelta(hours=i)).strftime(G.TS_FMT).encode()
+             + b' alpha %d\n' % i for i in range(72)]
+    data = b''.join(lines)
+    cons = [{'current': '2022-01-12 12:00:00', 'days': 0, 'hours': 24}]
+    defs = [{'kind': 'simple', 'patterns': [r'.+ alpha (\d+)'], 'tag': 's0',
+             'hint': None, 'store': True, 'constraints': []}]
+    run_ = {'global': 0, 'decode_errors': None, 'max_parallel_tasks': 8,
+            'adds': [[0, 'FILE', True]], 'new_searcher': True}
+    return data, cons, defs, run_
+
+
 def run(chk):
     chk.prove(PROPS)
     chk.coverage['rule'] = (
@@ -104,6 +120,7 @@ def run(chk):
     try:
         for idx in range(ncases):
             data, cons, defs, run_ = big_case(chk.rng) if idx == 3 \
+                else rotation_case(chk.rng) if idx == 5 \
                 else gen_case(chk.rng, idx)
             outs = {}
             for vname, gz in variants(chk.rng, data):
@@ -156,8 +173,15 @@ def run(chk):
             # must still agree with each other
             if idx % 4 == 1 and len(data) > 200 and run_['global'] is not None:
                 houts = {}
-                short = data[:len(data) // 3]
-                short = short[:short.rfind(b'\n') + 1] or short
+                if idx % 8 == 1:
+                    short = data[:len(data) // 3]
+                    short = short[:short.rfind(b'\n') + 1] or short
+                else:
+                    # the LAST lines of the old content (a rotated-in file
+                    # that is shorter than the cached offset but whose lines
+                    # are all inside the window)
+                    cut = data.find(b'\n', 3 * len(data) // 4) + 1
+                    short = data[cut:] or data[-40:]
                 for vname, gz in variants(chk.rng, data)[:2]:
                     d3 = os.path.join(base, f"h_{vname}")
                     skrun.materialise(d3, {'x.log': (data, gz)})
